@@ -48,12 +48,15 @@ def drop_pid(trees):
 
 
 def section_paragraphs(doc):
-    """word lists of the paragraphs that sit directly in a section body / at top level"""
-    res = []
+    """word lists of the paragraphs that sit directly in a section body / at top level; paragraphs that follow each
+    other directly (always serialised with a blank line between them) are in the same group"""
+    groups = [[]]
     for b in doc:
         if b[0] == "p":
-            res.append([w for w, _c, _b, _i in G.leaves(G.den_block(b))])
-    return res
+            groups[-1].append([w for w, _c, _b, _i in G.leaves(G.den_block(b))])
+        else:
+            groups.append([])
+    return [g for g in groups if g]
 
 
 def compare(doc, got):
@@ -80,17 +83,19 @@ def compare(doc, got):
     pid = {}
     for t in _walk_leaves(got):
         pid[t[1]] = t[4]
-    seen = {}
-    for k, ws in enumerate(section_paragraphs(doc)):
-        ids = {pid.get(w) for w in ws}
-        if len(ids) != 1:
-            return "paragraph", "words %r of one paragraph lie in paragraph nodes %r" % (ws[:6], sorted(ids, key=str))
-        i = ids.pop()
-        if i is None:
-            continue        # a paragraph that is alone in its container is not wrapped by ParseParagraphs (core.py:832)
-        if i in seen:
-            return "paragraph", "paragraphs %r... and %r... share one Paragraph node" % (seen[i][:3], ws[:3])
-        seen[i] = ws
+    for group in section_paragraphs(doc):
+        seen = {}
+        for ws in group:
+            ids = {pid.get(w) for w in ws}
+            if len(ids) != 1:
+                return "paragraph", "words %r of one paragraph lie in paragraph nodes %r" % (ws[:6], sorted(ids, key=str))
+            i = ids.pop()
+            # mwlib's Paragraph nodes are "runs between blank lines/block nodes" (core.py:791-833): a list between two
+            # text runs does not split them, and a run that is alone in its container is not wrapped at all; what the
+            # grammar's blank line denotes is only that two paragraphs following each other are separate nodes
+            if i in seen:
+                return "paragraph", "paragraphs %r... and %r... separated by a blank line share one Paragraph node" % (seen[i][:3], ws[:3])
+            seen[i] = ws
     return None
 
 
@@ -149,8 +154,160 @@ class _FixedRng:
         return 0.99
 
 
-def proofs(run, src):
-    pass
+def build():
+    return core.ocaml_build("c02", "C02/Extract.v", "driver.ml", dirs=["C01", "C02"])
+
+
+class Ids:
+    def __init__(self):
+        self.d = {}
+
+    def __call__(self, w):
+        return self.d.setdefault(w, len(self.d) + 1)
+
+
+def sx_inl(inl, ids):
+    out = []
+    for e in inl:
+        k = e[0]
+        if k == "w":
+            out.append("(0 %d)" % ids(e[1]))
+        elif k == "b":
+            out.append("(1 %s)" % sx_inl(e[2], ids))
+        elif k == "i":
+            out.append("(2 %s)" % sx_inl(e[2], ids))
+        elif k == "link":
+            out.append("(3 %d %s)" % (ids(e[1]), sx_inl(e[2], ids)))
+        elif k == "ext":
+            out.append("(4 %d %s)" % (ids(e[1]), sx_inl(e[2], ids)))
+        elif k == "ref":
+            out.append("(5 %s)" % sx_inl(e[1], ids))
+    return " ".join(out)
+
+
+def sx_doc(doc, ids):
+    """s-expression of a document for the extracted `denote`; None when the document uses block-valued cells
+    (the Gallina grammar has inline cells only)"""
+    out = []
+    for b in doc:
+        k = b[0]
+        if k == "h":
+            out.append("(10 %d %s)" % (b[1], sx_inl(b[2], ids)))
+        elif k == "p":
+            out.append("(11 %s)" % " ".join("(%s)" % sx_inl(ln, ids) for ln in b[1]))
+        elif k == "list":
+            out.append("(12 %s)" % " ".join("((%s) %s)" % (" ".join(str(ord(ch)) for ch in p), sx_inl(inl, ids)) for p, inl in b[1]))
+        elif k == "table":
+            rows = []
+            for row in b[1]:
+                cells = []
+                for hdr, body in row:
+                    if body[0] != "inl":
+                        return None
+                    cells.append("(%d %s)" % (1 if hdr else 0, sx_inl(body[1], ids)))
+                rows.append("(%s)" % " ".join(cells))
+            out.append("(13 %s)" % " ".join(rows))
+        elif k == "pre":
+            out.append("(14 %s)" % " ".join("(%s)" % sx_inl(ln, ids) for ln in b[1]))
+    return " ".join(out)
+
+
+def with_ids(trees, ids):
+    out = []
+    for t in trees:
+        if t[0] == "L":
+            out.append(["L", ids(t[1]), t[2], t[3]])
+        else:
+            lab = list(t[1])
+            if lab[0] in ("link", "ext"):
+                lab[1] = ids(lab[1])
+            out.append(["N", lab, with_ids(t[2], ids)])
+    return out
+
+
+def _units(src, cases):
+    rc, out = core.run_impl("vt.harness.c02_units", [], src=src, input="".join(json.dumps(c) + "\n" for c in cases), timeout=1800)
+    res = {}
+    for ln in out.splitlines():
+        if ln.startswith('{"id"'):
+            r = json.loads(ln)
+            res[r["id"]] = r
+    if len(res) != len(cases):
+        raise RuntimeError("c02_units: %d/%d results: %s" % (len(res), len(cases), out[-600:]))
+    return res
+
+
+def proofs(run, src, docs):
+    import itertools
+    run.check_proofs("C02", dirs=["C01"])
+    exe = build()
+    rng = run.rng
+    quick = run.tier == "quick"
+    # ---- tie 1: Python mirror of `denote` == extracted Gallina `denote` on the generated documents
+    lines, want = [], []
+    for d in docs:
+        ids = Ids()
+        sx = sx_doc(d["doc"], ids)
+        if sx is None:
+            continue
+        lines.append("D" + sx + "\n")
+        want.append((d["id"], with_ids(G.denote(d["doc"]), ids)))
+    out = subprocess.run([exe], input="".join(lines), capture_output=True, text=True, timeout=1800).stdout.splitlines()
+    dis = []
+    for (did, w), o in zip(want, out):
+        try:
+            got = json.loads(o)
+        except ValueError:
+            got = o
+        if got != w:
+            dis.append("denote(doc %d): extracted %s, mirror %s" % (did, str(o)[:200], json.dumps(w)[:200]))
+    if len(out) != len(want):
+        dis.append("driver returned %d lines for %d documents" % (len(out), len(want)))
+    run.tie("denote: Python mirror (the search oracle) vs extracted Gallina denote, same documents", len(want), dis)
+    # ---- tie 2: real ParseSections vs extracted parse_sections (= nest by C02_sections_nest)
+    cases = []
+    seqs = []
+    for ln in range(0, 6 if quick else 7):
+        for t in itertools.product([0, 1, 2, 3], repeat=ln):       # 0 = block, k = heading of level k: exhaustive
+            seqs.append(list(t))
+    for _ in range(1500 if quick else 20000):
+        seqs.append([rng.choice([0, 0, 1, 2, 3, 4, 5, 6]) for _ in range(rng.choice([6, 8, 12, 20, 40]))])
+    for i, sq in enumerate(seqs):
+        cases.append({"id": i, "k": "S", "items": [[1, k, j] if k else [0, j] for j, k in enumerate(sq)]})
+    res = _units(src, cases)
+    mlines = "".join("S" + " ".join("(1 %d %d)" % (it[1], it[2]) if it[0] else "(0 %d)" % it[1] for it in c["items"]) + "\n" for c in cases)
+    out = subprocess.run([exe], input=mlines, capture_output=True, text=True, timeout=1800).stdout.splitlines()
+    dis = []
+    for c, o in zip(cases, out):
+        alg, _, nst = o.partition(" # ")
+        real = res[c["id"]].get("out", res[c["id"]].get("exc"))
+        if not (alg == nst == real):
+            dis.append("sections %r: real %s | model %s | nest %s" % (c["items"], real, alg, nst))
+    run.tie("ParseSections: real pass on heading/block token lists vs extracted parse_sections and nest", len(cases), dis)
+    # ---- tie 3: real ParseLines vs extracted den_list
+    cases = []
+    lsets = []
+    for ln in range(1, 4 if quick else 5):
+        for t in itertools.product(["*", "#", ":", ";", "**", "*#", "#:", ":*", "::", ";;", "*#:"], repeat=ln):
+            lsets.append(list(t))
+    for _ in range(1500 if quick else 20000):
+        k = rng.randint(1, 8)
+        lsets.append(["".join(rng.choice("*#:;") for _ in range(rng.randint(1, 4))) for _ in range(k)])
+    for i, ps in enumerate(lsets):
+        cases.append({"id": i, "k": "L", "lines": [[p, j + 1] for j, p in enumerate(ps)]})
+    res = _units(src, cases)
+    mlines = "".join("L" + " ".join("((%s) %d)" % (" ".join(str(ord(ch)) for ch in p), w) for p, w in c["lines"]) + "\n" for c in cases)
+    out = subprocess.run([exe], input=mlines, capture_output=True, text=True, timeout=1800).stdout.splitlines()
+    dis = []
+    for c, o in zip(cases, out):
+        real = res[c["id"]].get("out", res[c["id"]].get("exc"))
+        try:
+            m = json.loads(o)
+        except ValueError:
+            m = o
+        if m != real:
+            dis.append("lines %r: real %s | den_list %s" % ([p for p, _ in c["lines"]], json.dumps(real)[:300], str(o)[:300]))
+    run.tie("ParseLines: real pass on prefixed line token lists vs extracted den_list (the denoted prefix tree)", len(cases), dis)
 
 
 def check(run):
@@ -170,8 +327,8 @@ def check(run):
                        "paragraph nodes are compared only for paragraphs directly in a section body (mwlib also wraps lists and "
                        "preformatted blocks into Paragraph nodes, which the property does not speak about)"]
     src = core.snapshot()
-    proofs(run, src)
     docs = gen_docs(run)
+    proofs(run, src, docs)
     results = run_impl(src, [{"id": d["id"], "raw": d["raw"], "lang": d["lang"]} for d in docs])
     bykind = {}
     stats = collections.Counter()
